@@ -38,10 +38,22 @@ HEAD = f'<xs:schema {XS} targetNamespace="urn:t" xmlns:t="urn:t" elementFormDefa
 HEADS = {'1.0': HEAD, '1.1': HEAD[:-1] + ' defaultAttributes="t:DAG">'}
 
 
+DECLS11 = [
+    # XSD 1.1: wildcards that exclude every globally DEFINED name - of the whole schema, not of the document that happens to hold the wildcard
+    '<xs:element name="nd"><xs:complexType><xs:sequence><xs:any notQName="##defined" namespace="##any" processContents="lax" minOccurs="0" maxOccurs="unbounded"/></xs:sequence>'
+    '</xs:complexType></xs:element>',
+]
+
+
 def decls_for(ver):
+    return _decls_for(ver) + (DECLS11 if ver == '1.1' else [])
+
+
+def _decls_for(ver):
     # the derived type inherits the default attributes of its base: it must not add them again (the builder rejects the duplicate)
     return [d.replace('<xs:complexType name="DerT">', '<xs:complexType name="DerT" defaultAttributesApply="false">').replace('<xs:complexType name="WD">', '<xs:complexType name="WD" defaultAttributesApply="false">') if ver == '1.1' else d for d in DECLS]
 PROBES = [
+    '<t:nd xmlns:t="urn:t"><t:head><t:v>1</t:v></t:head></t:nd>', '<t:nd xmlns:t="urn:t" xmlns:o="urn:o"><o:head/><t:member><t:v>1</t:v></t:member></t:nd>',      # ##defined wildcards (XSD 1.1; unknown element under 1.0)
     '<t:root xmlns:t="urn:t" a="5" t:ga="1 2"><t:head><t:v>7</t:v></t:head><t:member><t:v>1</t:v><t:w>1 2 50</t:w></t:member><t:x>true</t:x></t:root>',
     '<t:root xmlns:t="urn:t" a="51"><t:head><t:v>-1</t:v></t:head></t:root>',
     '<t:root xmlns:t="urn:t"><t:member><t:v>1</t:v><t:w>51</t:w></t:member><t:y>2020-02-30</t:y></t:root>',
@@ -106,6 +118,25 @@ def eval_arrangement(args):
         return ('EXC', type(e).__name__, str(e)[:160])
 
 
+def defined_attribute_wildcard(root, open_findings):
+    """XSD 1.1 attribute wildcard with notQName="##defined": one document against the same declarations split over two included documents"""
+    import xmlschema
+    K = 'C09-defined-attribute-wildcard-is-document-scoped'
+    H = HEAD; ga = '<xs:attribute name="gattr" type="xs:int"/>'
+    el = '<xs:element name="nd"><xs:complexType><xs:anyAttribute notQName="##defined" processContents="lax"/></xs:complexType></xs:element>'
+    d = os.path.join(root, 'defined'); os.makedirs(d, exist_ok=True)
+    open(os.path.join(d, 'attrs.xsd'), 'w').write(H + ga + '</xs:schema>')
+    open(os.path.join(d, 'main.xsd'), 'w').write(H + '<xs:include schemaLocation="attrs.xsd"/>' + el + '</xs:schema>')
+    one = xmlschema.XMLSchema11(H + ga + el + '</xs:schema>'); two = xmlschema.XMLSchema11(os.path.join(d, 'main.xsd'))
+    probes = ['<t:nd xmlns:t="urn:t" t:gattr="1"/>', '<t:nd xmlns:t="urn:t" xmlns:o="urn:o" o:gattr="1"/>']
+    a = [[e.reason for e in one.iter_errors(p)] for p in probes]; b = [[e.reason for e in two.iter_errors(p)] for p in probes]
+    fails = []; known = {}
+    if a != b:
+        if K in open_findings: known[K] = 1
+        else: fails.append(dict(case=dict(defined_attr=True), observed=dict(single_document=a, split=b), required='same errors'))
+    return result('C09.defined_attribute_wildcard', 'an XSD 1.1 attribute wildcard with notQName="##defined": single document vs the global attribute moved to an included document, 2 probes', 2, fails, exhaustive=True, known=known)
+
+
 def run(tier, seed, open_findings):
     root = tempfile.mkdtemp(prefix='verif_c09_')
     try:
@@ -118,7 +149,7 @@ def run(tier, seed, open_findings):
             if got != refs[ver]:
                 diff = got if got and got[0] == 'EXC' else ('globals differ' if got[0] != refs[ver][0] else 'probe results differ')
                 fails.append(dict(case=dict(ver=ver, kind=kind, seed=sd), observed=diff, required='same global components, errors and data as the reference arrangement'))
-        return [result('C09.arrangements', f'{len(jobs)} arrangements ({", ".join(KINDS)}) x 9 probe instances, both classes', len(jobs) * len(PROBES), fails,
+        return [defined_attribute_wildcard(root, open_findings), result('C09.arrangements', f'{len(jobs)} arrangements ({", ".join(KINDS)}) x {len(PROBES)} probe instances, both classes', len(jobs) * len(PROBES), fails,
                        samples=[dict(kind='spell', note='the same file included twice under two spellings')], distinct=len(jobs))]
     finally:
         shutil.rmtree(root, ignore_errors=True)
@@ -127,6 +158,8 @@ def run(tier, seed, open_findings):
 def replay(check_name, case):
     root = tempfile.mkdtemp(prefix='verif_c09_')
     try:
+        if case.get('defined_attr'):
+            r = defined_attribute_wildcard(root, {}); return dict(ok=not r['failures'], observed=r['failures'][:1], required='same errors')
         got = eval_arrangement((case['ver'], case['kind'], case['seed'], root))
         ref = summary(_cls(case['ver'])(HEADS[case['ver']] + ''.join(decls_for(case['ver'])) + '</xs:schema>'))
         return dict(ok=got == ref, observed=got if got and got[0] == 'EXC' else 'summary compared', required='same as the reference arrangement')
